@@ -25,9 +25,9 @@ RULE = ("case = (scenario variant, injector kind); inside: every abort index; a 
         "monitor_counters: runs per injector, events and deliveries checked")
 ASSUMPTIONS = ["abort = OptimizationAborted(USER_ABORT) raised by user code (observer, handler or evaluator), as BasicOptimizer.set_abort_callback does"]
 REQUIRED = {"quick": {"abort_runs.observer": 400, "abort_runs.handler": 400, "abort_runs.evaluator": 150, "events_checked": 15000, "deliveries_checked": 60000,
-                      "streams_checked": 2000, "latch_checked": 900, "later_steps_refused": 300, "nested_abort_runs": 200, "abort_runs_with_nested_plans_on_their_own_context": 200, "abort_runs_with_a_handler_added_after_an_earlier_nested_run": 60, "nested_plan_served_another_outer_plan_before": 100, "three_level_abort_runs": 600, "plan_functions_refused_after_abort": 900, "further_step_tried_during_finish_event": 1200, "basic_optimizer_abort_runs": 24, "__nontrivial__": 900},
+                      "streams_checked": 2000, "latch_checked": 900, "later_steps_refused": 300, "nested_abort_runs": 200, "abort_runs_with_nested_plans_on_their_own_context": 200, "abort_runs_with_a_handler_added_after_an_earlier_nested_run": 60, "abort_runs_without_observers_for_the_start_of_an_evaluation": 120, "nested_plan_served_another_outer_plan_before": 100, "three_level_abort_runs": 600, "plan_functions_refused_after_abort": 900, "further_step_tried_during_finish_event": 1200, "basic_optimizer_abort_runs": 24, "__nontrivial__": 900},
             "thorough": {"abort_runs.observer": 5000, "abort_runs.handler": 5000, "abort_runs.evaluator": 2000, "events_checked": 200000, "deliveries_checked": 1000000,
-                         "streams_checked": 25000, "latch_checked": 12000, "later_steps_refused": 6000, "nested_abort_runs": 4000, "abort_runs_with_nested_plans_on_their_own_context": 3000, "abort_runs_with_a_handler_added_after_an_earlier_nested_run": 800, "nested_plan_served_another_outer_plan_before": 1500, "three_level_abort_runs": 7000, "plan_functions_refused_after_abort": 10000, "further_step_tried_during_finish_event": 14000, "basic_optimizer_abort_runs": 200, "__nontrivial__": 12000}}
+                         "streams_checked": 25000, "latch_checked": 12000, "later_steps_refused": 6000, "nested_abort_runs": 4000, "abort_runs_with_nested_plans_on_their_own_context": 3000, "abort_runs_with_a_handler_added_after_an_earlier_nested_run": 800, "abort_runs_without_observers_for_the_start_of_an_evaluation": 2500, "nested_plan_served_another_outer_plan_before": 1500, "three_level_abort_runs": 7000, "plan_functions_refused_after_abort": 10000, "further_step_tried_during_finish_event": 14000, "basic_optimizer_abort_runs": 200, "__nontrivial__": 12000}}
 N = {"quick": 48, "thorough": 600}
 SCENARIOS = ["optimizer", "evaluator", "sequential", "nested", "nested3"]
 
@@ -145,7 +145,15 @@ def build(scenario, rng, world, raise_at):
     ev = ens.RecordingEvaluator(spec, raise_at=raise_at)
     ctx = OptimizerContext(evaluator=ev, plugin_manager=_pm())
     observers = []
+    # observers need not be connected to every event type (a results callback, say, listens to FINISHED_EVALUATION only):
+    # the handlers of the plans get every event all the same
+    unobserved = set()
+    if rng.random() < 0.35:
+        unobserved = {EventType.START_EVALUATION} | ({EventType.START_OPTIMIZER_STEP, EventType.START_EVALUATOR_STEP} if rng.random() < 0.4 else set())
+        world.unobserved_types = True
     for et in EventType:
+        if et in unobserved:
+            continue
         for n in range(2):
             tag = f"obs:{et.name}:{n}"
             ctx.add_observer(et, lambda e, tag=tag, n=n: world.see(e, tag, "observer", n == 0))
@@ -523,6 +531,8 @@ def run_case(case, obs):
                 obs.count("nested_plan_served_another_outer_plan_before")
         if scenario == "nested3":
             obs.count("three_level_abort_runs")
+        if getattr(w, "unobserved_types", False):
+            obs.count("abort_runs_without_observers_for_the_start_of_an_evaluation")
         if getattr(w, "late_handler", False):
             obs.count("abort_runs_with_a_handler_added_after_an_earlier_nested_run")
         if w.nested_own_context:
